@@ -334,7 +334,7 @@ def show_atoms(atoms):
 
 
 # ---------------------------------------------------------------------- rules
-def check_triple(t, exp, rep, modes=("full", "eps"), want=("W1", "W2", "W3", "W4", "W5", "PROB")):
+def check_triple(t, exp, rep, modes=("full", "eps"), want=("W1", "W2", "W3", "W4", "W5", "PROB"), w4_sides=None, prob_sides=None):
     """Apply W1..W5 to one impl; findings are added to rep with rule ids."""
     key = t.key
     # extraction failures are fail-closed
@@ -374,7 +374,7 @@ def check_triple(t, exp, rep, modes=("full", "eps"), want=("W1", "W2", "W3", "W4
             rep.add("W5", key, "`%s` has a DeserializeInner impl but no SerializeInner impl" % key, t.loc)
     # path problems
     if "PROB" in want:
-        for side in ("ser",) + tuple(modes):
+        for side in (("ser",) + tuple(modes)) if prob_sides is None else prob_sides:
             for p in t.paths.get(side, []) or []:
                 if p.outcome == "panic":
                     continue
@@ -422,8 +422,9 @@ def check_triple(t, exp, rep, modes=("full", "eps"), want=("W1", "W2", "W3", "W4
             check_w2(t, ser_ok, rd_ok, mode, rep)
         if "W3" in want:
             check_w3(t, ser_ok, rd, mode, rep)
-    if "W4" in want:
-        for side in ("ser",) + tuple(modes):
+    if "W4" in want and not (t.des_impl is None and "W5-view" not in want):
+        w4s = (("ser",) + tuple(modes)) if w4_sides is None else w4_sides
+        for side in w4s:
             for p in t.paths.get(side, []) or []:
                 if p.outcome != "ok":
                     continue
